@@ -63,11 +63,46 @@ def opUTF8 (src : Array UInt8) : String :=
   let ok := _cbor_unicode_codepoint_count.ok src 0 (UInt64.ofNat src.size) st0
   s!"{r.1} {r.2.status} {r.2.location} ok={b2s ok}"
 
+/-- increment the byte string (as a big-endian counter) in positions ≥ pl; none on wrap-around -/
+def incFrom (b : Array UInt8) (pl : Nat) : Option (Array UInt8) :=
+  let rec go (i : Nat) (b : Array UInt8) : Option (Array UInt8) :=
+    match i with
+    | 0 => none
+    | i+1 =>
+      if i < pl then none
+      else
+        let v := b.getD i 0 + 1
+        let b := b.setIfInBounds i v
+        if v != 0 then some b else go i b
+  go b.size b
+
+def fnv (h x : UInt64) : UInt64 := (h ^^^ x) * 1099511628211
+
+partial def utf8AllLoop (b : Array UInt8) (pl : Nat) (h n valid sum : UInt64)
+    (f : Array UInt8 → UInt64 × UInt32) : UInt64 × UInt64 × UInt64 × UInt64 :=
+  let r := f b
+  let h := fnv (fnv h r.1) r.2.toUInt64
+  let n := n + 1
+  let (valid, sum) := if r.2 == 0 then (valid + 1, sum + r.1) else (valid, sum)
+  match incFrom b pl with
+  | some b' => utf8AllLoop b' pl h n valid sum f
+  | none => (h, n, valid, sum)
+
+def opUTF8ALL (len : Nat) (pre : Array UInt8) : String :=
+  let b0 : Array UInt8 := (Array.replicate len 0)
+  let b0 := (List.range pre.size).foldl (fun a i => a.setIfInBounds i (pre.getD i 0)) b0
+  let st0 : S__cbor_unicode_status := { status := 7, location := 77 }
+  let r := utf8AllLoop b0 pre.size 1469598103934665603 0 0 0 fun b =>
+    let x := _cbor_unicode_codepoint_count b 0 (UInt64.ofNat b.size) st0
+    (x.1, x.2.status)
+  s!"{r.1} {r.2.1} {r.2.2.1} {r.2.2.2}"
+
 def genOp (ws : List String) : Option String :=
   match ws with
   | ["SD", h] => (parseHex h).map opSD
   | ["ENC", fn, v, n] => do opENC fn (← v.toNat?) (← n.toNat?)
   | ["UTF8", h] => (parseHex h).map opUTF8
+  | ["UTF8ALL", l, h] => do some (opUTF8ALL (← l.toNat?) (← parseHex h))
   | ["MUL", a, b] => do
       let a := UInt64.ofNat (← a.toNat?); let b := UInt64.ofNat (← b.toNat?)
       some s!"{b2s (_cbor_safe_to_multiply a b)} ok={b2s (_cbor_safe_to_multiply.ok a b)}"
